@@ -319,3 +319,25 @@ Definition decode_bytes_with {A} (p : st -> result (A * st)) (b : list N) : resu
   | Err e => Err e
   | Ok (v, s) => match inp s with [] => Ok v | _ :: _ => Err ErrMoreThanOneValue end
   end.
+
+(* the stream's view of the first value's boundaries, for comparison with
+   raw.go Split: Stream.Kind(), then Stream.Bytes() for a string / byte, or the
+   content read of Stream.Raw() (decode.go:690, readFull of `size` bytes) for
+   a list.  Returns kind, content, unread input. *)
+Definition stream_split (b : list N) : result (kind * list N * list N) :=
+  match kind_ (init b) with
+  | Err e => Err e
+  | Ok (k, size, bv, s1) =>
+      match k with
+      | KList =>
+          match read_full size s1 with
+          | Err e => Err e
+          | Ok (c, s2) => Ok (KList, c, inp s2)
+          end
+      | _ =>
+          match bytes_ k size bv s1 with
+          | Err e => Err e
+          | Ok (c, s2) => Ok (k, c, inp s2)
+          end
+      end
+  end.
